@@ -2,8 +2,11 @@
 """Regression: re-run the checks against every stored seeded change (checks only)."""
 import json, glob, subprocess, sys
 missed = []
+only = sys.argv[1:]
 for d in sorted(glob.glob('/verif/seeded/C*/')):
     m = json.load(open(d + 'meta.json'))
+    if only and not any(m['id'].startswith(o) for o in only):
+        continue
     ID, k = m['id'].split('-')
     props = sorted(set(m.get('detected_by', []) + [m['breaks_property']]))
     r = subprocess.run(['python3', '/verif/tools/seedval.py', ID, k, m.get('demo_crate', 'eyeball'), *props, '--checks-only'], capture_output=True, text=True)
